@@ -1,4 +1,4 @@
-import SctpVerif.Proofs.ReasmFwdRun
+import SctpVerif.Proofs.ReasmFwdMidRun
 /-!
 # C07, receiver reassembly — what the reassembly queue does with a skip
 
@@ -198,7 +198,7 @@ theorem C07_reasm_purge_exact_unordered (q : Q) (t : BitVec 32)
   · rw [hq']; exact dropWhile_not_eq_filter _ _ hmono
   · rw [← takeWhile_not_eq_filter _ _ hmono]; exact hbytes
 
-/-! ## Part 2: honest runs with skips — ordered DATA (SSN, window 2^15) -/
+/-! ## Part 2: honest runs with skips — ordered DATA (SSN, window 2^15) and ordered I-DATA (MID, window 2^31) -/
 
 /-- ✱ **headline.** For every admissible run (pushes in any order, reads of any size, skips) from the empty queue there
 is a list `D` of message indices such that
@@ -226,6 +226,63 @@ theorem C07_reasm_skip_then_deliver (S : Sender) (hS : S.WF) (K : Nat → Bool) 
   simp only [List.nil_append, List.not_mem_nil, false_or] at hinv hP'
   have hlen : ∀ k ∈ D, k < S.msgs.length := fun k hk => (hinv.dlt k hk).2.1
   have hdel' : S.dataFr.deliveries (new S.si maxEntries) ops = D.map (fun k => (S.msg k).out) := hdel
+  have hall : ∀ k, (∀ i, i < S.nf k → (k, i) ∈ pushedS ops) → ∀ i, i < S.nf k → (k, i) ∈ P' :=
+    fun k h i hi => (hP' _).2 (h i hi)
+  refine ⟨D, hdel', hinv.dsorted, hlen, ?_, ?_, ?_⟩
+  · rw [hdel']
+    have := map_getD_sublist (S.msgs.map Msg.out) (default : Msg).out D 0 hinv.dsorted
+      (fun k hk => ⟨Nat.zero_le _, by simpa using hlen k hk⟩)
+    simp only [List.drop_zero] at this
+    have e : D.map (fun k => (S.msg k).out) = D.map (fun k => (S.msgs.map Msg.out).getD k (default : Msg).out) := by
+      apply List.map_congr_left
+      intro k hk
+      have := hlen k hk
+      simp [Sender.msg, List.getD_eq_getElem?_getD, List.getElem?_eq_getElem this]
+    rw [e]; exact this
+  · intro k hk hK hpush
+    rcases hinv.kept hS hk hK (hall k hpush) with h | h
+    · exact .inl h
+    · right; rw [hinv.tab.ord]; exact List.mem_map_of_mem h
+  · intro hnr k hk hK hpush hpred
+    have hkc : k ≤ c' := by
+      rcases Nat.lt_or_ge c' k with hlt | hge
+      · exfalso
+        rcases hpred c' hlt with ⟨hK', hp'⟩ | ⟨L, hL, hle⟩
+        · have := hinv.drained hS hnr (by omega) (Nat.le_refl _) hK' (hall c' hp')
+          have := (hinv.dlt c' this).1
+          omega
+        · have := hsk L hL; omega
+      · exact hge
+    exact hinv.drained hS hnr hk hkc hK (hall k hpush)
+
+/-- ✱ **headline, I-DATA** (MID / FSN reassembly, `forwardTSNForOrderedMID`, window 2^31; the TSNs `τ` are arbitrary — I-DATA
+reassembly never looks at them). Same statement: for every admissible run (pushes in any order, reads of any size, skips) from the empty queue there
+is a list `D` of message indices such that
+1. the successful reads returned exactly the messages `D`, in this order, each with its PPI and its whole payload;
+2. `D` is strictly increasing and inside the stream — so the reads are a SUBSEQUENCE of the written messages in write
+   order: nothing twice, nothing out of order, nothing truncated or spliced;
+3. nothing that was not abandoned is lost because of a skip: a message that is not abandoned and whose fragments were
+   all handed over is in `D` or sits complete in `orderedMID` (where a later read finds it);
+4. and it IS in `D` once the application has drained the queue (`isReadable = false`), provided every earlier message
+   was either handed over completely (and is not abandoned) or is covered by a skip of the run. -/
+theorem C07_reasm_skip_then_deliver_idata (S : Sender) (hS : S.WF) (τ : Nat → Nat → BitVec 32) (K : Nat → Bool)
+    (maxEntries : BitVec 32)
+    (ops : List SOp)
+    (hadm : S.AdmissibleS K (S.idataFr τ) (new S.si maxEntries) 0 0 [] ops) :
+    ∃ D : List Nat,
+      (S.idataFr τ).deliveries (new S.si maxEntries) ops = D.map (fun k => (S.msg k).out) ∧
+      D.Pairwise (· < ·) ∧ (∀ k ∈ D, k < S.msgs.length) ∧
+      ((S.idataFr τ).deliveries (new S.si maxEntries) ops).Sublist (S.msgs.map Msg.out) ∧
+      (∀ k, k < S.msgs.length → K k = false → (∀ i, i < S.nf k → (k, i) ∈ pushedS ops) →
+        k ∈ D ∨ S.concSetMID τ (k, List.range (S.nf k)) ∈ ((S.idataFr τ).run (new S.si maxEntries) ops).orderedMID) ∧
+      (((S.idataFr τ).run (new S.si maxEntries) ops).isReadable = false →
+        ∀ k, k < S.msgs.length → K k = false → (∀ i, i < S.nf k → (k, i) ∈ pushedS ops) →
+          (∀ k', k' < k → (K k' = false ∧ ∀ i, i < S.nf k' → (k', i) ∈ pushedS ops) ∨ (∃ L ∈ skipsS ops, k' ≤ L)) →
+          k ∈ D) := by
+  obtain ⟨f', c', A', P', D, hinv, hdel, hP', _, hsk⟩ := SkipInvM.run hS K ops (SkipInvM_new S τ K maxEntries) hadm
+  simp only [List.nil_append, List.not_mem_nil, false_or] at hinv hP'
+  have hlen : ∀ k ∈ D, k < S.msgs.length := fun k hk => (hinv.dlt k hk).2.1
+  have hdel' : (S.idataFr τ).deliveries (new S.si maxEntries) ops = D.map (fun k => (S.msg k).out) := hdel
   have hall : ∀ k, (∀ i, i < S.nf k → (k, i) ∈ pushedS ops) → ∀ i, i < S.nf k → (k, i) ∈ P' :=
     fun k h i hi => (hP' _).2 (h i hi)
   refine ⟨D, hdel', hinv.dsorted, hlen, ?_, ?_, ?_⟩
@@ -301,5 +358,10 @@ example : S1.AdmissibleS K1 S1.dataFr (new S1.si 0) 0 0 [] ops2 := by decide
 example : S1.dataFr.deliveries (new S1.si 0) ops2 = [(51, [3, 4]), (53, [8, 9])] := by decide
 -- the premise is needed: a skip over a reliable message that has NOT arrived completely is not admissible
 example : ¬ S1.AdmissibleS K1 S1.dataFr (new S1.si 0) 0 0 [] [.skip 2] := by decide
+
+-- I-DATA: first message abandoned (nothing received), message 2 abandoned after one fragment, 1 and 3 reliable
+private def ops3 : List SOp := [.push 1 0, .push 2 1, .skip 0, .read 100, .skip 2, .push 3 1, .push 3 0, .read 100]
+example : S1.AdmissibleS K1 (S1.idataFr fun _ _ => 7) (new S1.si 0) 0 0 [] ops3 := by decide
+example : (S1.idataFr fun _ _ => 7).deliveries (new S1.si 0) ops3 = [(51, [3, 4]), (53, [8, 9])] := by decide
 
 end C07
